@@ -9,6 +9,7 @@ package main
 import (
 	"fmt"
 	"sort"
+	"strings"
 
 	"github.com/sarchlab/mgpusim/v4/amd/insts"
 
@@ -24,6 +25,13 @@ type ProgSpec struct {
 	Allow []string `json:"allow"`           // features the generator may use
 	Force []string `json:"force,omitempty"` // features that must occur
 	Probe string   `json:"probe,omitempty"`
+	Size  int      `json:"size"` // 0 small (<= 320 work-items, short body), 1 medium, 2 large
+	// hand-written canonical programs: fixed geometry, number of kernels of a
+	// chain, and the body as a list of commands (see runScript)
+	Geo    *Launch  `json:"geo,omitempty"`
+	Chain  int      `json:"chain,omitempty"`
+	Script []string `json:"script,omitempty"`
+	OStr   int      `json:"ostr,omitempty"`
 }
 
 // Kernel is one generated kernel with its launch.
@@ -33,7 +41,8 @@ type Kernel struct {
 	OStr    int
 	IStr    int
 	IShift  int
-	InFrom  int // -1: the IN buffer; j: OUT buffer of kernel j
+	InFrom  int // -1: the IN buffer; j: output buffer of kernel j
+	OutTo   int // -1: a buffer of its own; j: the output buffer of kernel j (overwritten)
 	Consts  [10]uint32
 	NInst   int
 	NMem    int
@@ -62,6 +71,7 @@ var allFeatures = []string{
 	"dims2", "dims3", "partial_wg", "wg_non64", "big_wg",
 	"abi_dispatch", "abi_wgcount",
 	"multi_kernel", "readfirstlane", "vop3_sgpr_pair", "vcc_ops", "exec_ops", "sgpr64",
+	"waw", "waw_waitcnt", "raw_mem", "xkernel",
 }
 
 // features that exist only for one architecture
@@ -80,11 +90,14 @@ func featureList(arch string) []string {
 }
 
 type gen struct {
-	r     *vlib.PRNG
-	k     *kb
-	allow map[string]bool
-	used  map[string]bool
-	arch  string
+	size    int
+	r       *vlib.PRNG
+	k       *kb
+	allow   map[string]bool
+	used    map[string]bool
+	arch    string
+	written map[int]bool // dword offsets of the OUT body area already stored to
+	inLoop  int
 }
 
 func (x *gen) ok(f string) bool { return x.allow[f] }
@@ -330,7 +343,12 @@ func (x *gen) inOffset(l ldKind) int {
 func (x *gen) emitLoad(l ldKind, slot int) g.Operand {
 	dst := g.VRange(vL0+4*slot, l.regs)
 	x.use(l.feat)
-	x.k.load(l.op, dst, true, x.inOffset(l), x.form())
+	region := regIN
+	if x.k.rev && x.r.Bool() {
+		region = regREV
+		x.use("xkernel")
+	}
+	x.k.load(l.op, dst, region, x.inOffset(l), x.form())
 	return dst
 }
 
@@ -387,6 +405,74 @@ func (x *gen) waitcntBlock() {
 	x.fold(b, 1)
 }
 
+// storeOffset picks the OUT body offset of a store of n dwords. Unless the
+// features waw / waw_waitcnt allow it, no dword is stored to twice by one
+// work-item (and no store is placed in a loop). needWait: an s_waitcnt
+// vmcnt(0) has to precede the store.
+func (x *gen) storeOffset(n int) (off int, needWait, ok bool) {
+	span := (x.k.oStr - outBodyOff) / 4
+	free := func(d int) bool {
+		for j := 0; j < n; j++ {
+			if x.written[d+j] {
+				return false
+			}
+		}
+		return true
+	}
+	overlapOK := x.ok("waw") || x.ok("waw_waitcnt")
+	if x.inLoop > 0 && !overlapOK {
+		return 0, false, false
+	}
+	d := -1
+	wantOverlap := overlapOK && len(x.written) > 0 && x.r.Bool()
+	for try := 0; try < 30; try++ {
+		c := x.r.Intn(span - n + 1)
+		if wantOverlap != free(c) {
+			d = c
+			break
+		}
+	}
+	if d < 0 {
+		if !overlapOK {
+			return 0, false, false
+		}
+		d = x.r.Intn(span - n + 1)
+	}
+	overlap := !free(d) || x.inLoop > 0
+	if overlap {
+		if x.ok("waw") {
+			x.use("waw")
+		} else {
+			x.use("waw_waitcnt")
+			needWait = true
+		}
+	}
+	for j := 0; j < n; j++ {
+		x.written[d+j] = true
+	}
+	return outBodyOff + 4*d, needWait, true
+}
+
+// wawPair: two stores of one work-item to overlapping addresses back to back
+// (the second must win).
+func (x *gen) wawPair(c []stKind) {
+	a, b := pick(x.r, c), pick(x.r, c)
+	span := (x.k.oStr - outBodyOff) / 4
+	m := max(a.regs, b.regs)
+	d := x.r.Intn(span - m + 1)
+	da := d + x.r.Intn(m-a.regs+1)
+	db := d + x.r.Intn(m-b.regs+1)
+	for j := 0; j < m; j++ {
+		x.written[d+j] = true
+	}
+	x.use("waw")
+	x.use(a.feat)
+	x.use(b.feat)
+	f := x.form()
+	x.k.store(a.op, g.VRange(vT0+x.r.Intn(nVT-a.regs+1), a.regs), outBodyOff+4*da, f)
+	x.k.store(b.op, g.VRange(vT0+x.r.Intn(nVT-b.regs+1), b.regs), outBodyOff+4*db, f)
+}
+
 func (x *gen) storeBlock() {
 	var c []stKind
 	for _, s := range stKinds {
@@ -397,12 +483,49 @@ func (x *gen) storeBlock() {
 	if len(c) == 0 {
 		return
 	}
+	if x.ok("waw") && x.r.Chance(1, 3) {
+		x.wawPair(c)
+		return
+	}
 	s := pick(x.r, c)
+	off, wait, ok := x.storeOffset(s.regs)
+	if !ok {
+		x.aluRun(1)
+		return
+	}
 	x.use(s.feat)
-	span := x.k.oStr - outBodyOff - 4*s.regs
-	off := outBodyOff + 4*x.r.Intn(span/4+1)
+	if wait {
+		x.k.add(g.Waitcnt(0, 7, 15))
+	}
 	first := vT0 + x.r.Intn(nVT-s.regs+1)
 	x.k.store(s.op, g.VRange(first, s.regs), off, x.form())
+}
+
+// rawBlock: a work-item stores to one of its slots, waits, and loads it back.
+func (x *gen) rawBlock() {
+	if !x.ok("raw_mem") {
+		return
+	}
+	off, wait, ok := x.storeOffset(1)
+	if !ok {
+		return
+	}
+	x.use("raw_mem")
+	k := x.k
+	if wait {
+		k.add(g.Waitcnt(0, 7, 15))
+	}
+	if x.r.Bool() {
+		// read the slot first so that a cache may hold the old contents
+		k.load(g.OpFlatLoadDword, g.V(vL0+1), regOUT, off, x.form())
+		k.add(g.Waitcnt(0, 7, 15))
+		x.fold(ldKinds[3], 0)
+	}
+	k.store(g.OpFlatStoreDword, g.V(x.vt()), off, x.form())
+	k.add(g.Waitcnt(0, 7, 15))
+	k.load(g.OpFlatLoadDword, g.V(vL0), regOUT, off, x.form())
+	k.add(g.Waitcnt(0, 7, 15))
+	x.fold(ldKinds[3], 0)
 }
 
 func (x *gen) smemBlock() {
@@ -591,6 +714,8 @@ func (x *gen) loopUniform(level int) {
 	k.add(g.MkSOPK(0, cnt, uint16(1+x.r.Intn(4))))
 	top := k.label("loop")
 	k.p.Label(top)
+	x.inLoop++
+	defer func() { x.inLoop-- }()
 	n := 1 + x.r.Intn(2)
 	for i := 0; i < n; i++ {
 		switch d := x.r.Intn(100); {
@@ -645,10 +770,12 @@ func (x *gen) loopDivergent() {
 	k.add(g.MkVOPC(205 /*v_cmp_ne_u32*/, g.Imm(0), g.V(vCNT)))
 	k.sop2(13 /*s_and_b64*/, g.EXEC, g.EXEC, g.VCC)
 	k.add(g.Branch(g.OpSCbranchEXZ, end))
+	x.inLoop++
 	x.aluRun(1 + x.r.Intn(3))
 	if x.r.Bool() {
 		x.storeBlock()
 	}
+	x.inLoop--
 	k.vop2(opVAddU32, g.V(vCNT), g.Imm(-1), g.V(vCNT))
 	if x.r.Bool() {
 		k.add(g.Branch(g.OpSBranch, top))
@@ -721,20 +848,45 @@ func (x *gen) geometry() Launch {
 	if len(sel) == 0 {
 		sel = cands
 	}
+	maxItems := []int{320, 768, 1536}[x.size]
+	if !forced("big_wg") {
+		var fit [][3]int
+		for _, c := range sel {
+			if c[0]*c[1]*c[2] <= maxItems {
+				fit = append(fit, c)
+			}
+		}
+		if len(fit) > 0 {
+			sel = fit
+		}
+	}
 	s := pick(r, sel)
 	size := s[0] * s[1] * s[2]
 	wg := [3]uint16{uint16(s[0]), uint16(s[1]), uint16(s[2])}
+	budget := max(1, maxItems/size) // number of work-groups
 	var nwg [3]int
 	switch dims {
 	case 1:
-		nwg = [3]int{1 + r.Intn(max(1, min(6, 1536/size))), 1, 1}
+		nwg = [3]int{1 + r.Intn(min(6, budget)), 1, 1}
 	case 2:
-		nwg = [3]int{1 + r.Intn(3), 1 + r.Intn(3), 1}
-		if size > 256 {
+		nwg = [3]int{1, 1, 1}
+		if budget >= 2 {
+			nwg[r.Intn(2)] = 2
+		}
+		if budget >= 4 {
 			nwg = [3]int{1 + r.Intn(2), 1 + r.Intn(2), 1}
 		}
+		if budget >= 9 && r.Bool() {
+			nwg = [3]int{1 + r.Intn(3), 1 + r.Intn(3), 1}
+		}
 	default:
-		nwg = [3]int{1 + r.Intn(2), 1 + r.Intn(2), 1 + r.Intn(2)}
+		nwg = [3]int{1, 1, 1}
+		if budget >= 2 {
+			nwg[r.Intn(3)] = 2
+		}
+		if budget >= 8 {
+			nwg = [3]int{1 + r.Intn(2), 1 + r.Intn(2), 1 + r.Intn(2)}
+		}
 	}
 	if size%64 != 0 {
 		x.use("wg_non64")
@@ -760,6 +912,73 @@ func (x *gen) geometry() Launch {
 
 // ---------------------------------------------------------------- program
 
+// runScript emits the body of a hand-written canonical program.
+//
+//	st <n> <off> <t>      store n dwords vT[t..] to OUT+off (body area offset)
+//	ld|ldo|ldr <kind> <off> <slot>   load from IN / own OUT / reversed IN region
+//	fold <n> <slot>       fold n loaded registers of a slot into temporaries
+//	wait                  s_waitcnt vmcnt(0);  waitv <n>: s_waitcnt vmcnt(n)
+//	alu <n>               n generated ALU operations
+func (x *gen) runScript(script []string) {
+	k := x.k
+	for _, line := range script {
+		var a, b, c int
+		var kind string
+		switch {
+		case scan(line, "st %d %d %d", &a, &b, &c):
+			op := []int{0, g.OpFlatStoreDword, g.OpFlatStoreDwordx2, g.OpFlatStoreDwordx3, g.OpFlatStoreDwordx4}[a]
+			k.store(op, g.VRange(vT0+c, a), outBodyOff+b, 0)
+		case scan(line, "ld %s %d %d", &kind, &b, &c), scan(line, "ldo %s %d %d", &kind, &b, &c), scan(line, "ldr %s %d %d", &kind, &b, &c):
+			region := regIN
+			if strings.HasPrefix(line, "ldo") {
+				region = regOUT
+				b += outBodyOff
+			} else if strings.HasPrefix(line, "ldr") && k.rev {
+				region = regREV
+			}
+			for _, l := range ldKinds {
+				if l.feat == "ld_"+kind {
+					k.load(l.op, g.VRange(vL0+4*c, l.regs), region, b, 0)
+				}
+			}
+		case scan(line, "fold %d %d", &a, &b):
+			for j := 0; j < a; j++ {
+				k.vop2(opVXor, g.V(vT0+(b*4+j)%nVT), g.V(vL0+4*b+j), g.V(vT0+(b*4+j)%nVT))
+			}
+		case line == "wait":
+			k.add(g.Waitcnt(0, 7, 15))
+		case scan(line, "waitv %d", &a):
+			k.add(g.Waitcnt(a, 7, 15))
+		case scan(line, "alu %d", &a):
+			x.aluRun(a)
+		default:
+			panic("bad script line: " + line)
+		}
+	}
+}
+
+func scan(line, format string, args ...any) bool {
+	n, err := fmt.Sscanf(line, format, args...)
+	return err == nil && n == len(args) && strings.Fields(line)[0] == strings.Fields(format)[0]
+}
+
+// abiSigKernel is the probe kernel of the ABI-flag features: no memory access,
+// the control flow spells out which of s0..s9 are zero, so that a different
+// initial register layout shows in the instruction trace.
+func abiSigKernel(arch g.Arch, v5 bool, l Launch, abi ABI) *kb {
+	k := newKB(arch, v5, l, abi, 192, 64, 0)
+	k.add(g.Nop(0))
+	for rgn := 0; rgn < 10; rgn++ {
+		lab := k.label("z")
+		k.add(g.MkSOPC(6 /*s_cmp_eq_u32*/, g.S(rgn), g.Imm(0)))
+		k.add(g.Branch(g.OpSCbranchSCC1, lab))
+		k.add(g.Nop(uint16(rgn)))
+		k.p.Label(lab)
+	}
+	k.add(g.Endpgm())
+	return k
+}
+
 // BuildProgram generates the program of a spec.
 func BuildProgram(spec ProgSpec) (prog *Program, err error) {
 	defer func() {
@@ -779,17 +998,20 @@ func BuildProgram(spec ProgSpec) (prog *Program, err error) {
 		allow["force:"+f] = true
 	}
 	prog = &Program{Spec: spec, TabSize: 1024}
-	nk := 1
-	if allow["multi_kernel"] && (force["multi_kernel"] || r.Chance(1, 5)) {
-		nk = 2
-	}
 	arch := g.GCN3
 	if spec.Arch == "cdna3" {
 		arch = g.CDNA3
 	}
-	x := &gen{r: r, allow: allow, arch: spec.Arch}
+	x := &gen{r: r, allow: allow, arch: spec.Arch, size: spec.Size}
 	x.used = map[string]bool{}
 	geo := x.geometry()
+	if spec.Geo != nil {
+		geo = *spec.Geo
+	} else if force["xkernel"] {
+		// eight one-wavefront work-groups per kernel: consecutive kernels walk
+		// over the compute units and come back to the first ones
+		geo = Launch{Grid: [3]uint32{512, 1, 1}, WG: [3]uint16{64, 1, 1}}
+	}
 	if spec.Arch == "cdna3" && !allow["v5_ids_yz"] {
 		// work-item ids y/z must stay zero: 1-D work-groups only
 		for geo.WG[1] != 1 || geo.WG[2] != 1 {
@@ -808,26 +1030,82 @@ func BuildProgram(spec ProgSpec) (prog *Program, err error) {
 		x.use("v5_ids_yz")
 	}
 	geoUsed := x.used
+	prog.InSize = geo.slots()*112 + 256
+
+	if force["abi_queue_ptr"] || force["abi_private_segment_size"] {
+		abi := ABI{QueuePtr: force["abi_queue_ptr"], PrivSegSize: force["abi_private_segment_size"]}
+		k := abiSigKernel(arch, spec.Arch == "cdna3", geo, abi)
+		co, e := k.codeObject()
+		if e != nil {
+			return nil, e
+		}
+		kn := &Kernel{CO: co, L: geo, OStr: 192, IStr: 64, InFrom: -1, OutTo: -1, NInst: k.p.Len()}
+		for f := range force {
+			kn.Feat = append(kn.Feat, f)
+		}
+		sort.Strings(kn.Feat)
+		prog.Kernels = append(prog.Kernels, kn)
+		return prog, nil
+	}
+
+	// kernel chain shape
+	nk := 1
+	chain := false
+	switch {
+	case allow["xkernel"] && (force["xkernel"] || r.Chance(1, 6)):
+		chain = true
+		nk = 4 + r.Intn(5)
+		if force["xkernel"] {
+			nk = 11 // 88 work-groups > 64 compute units of the r9nano
+			if spec.Arch == "cdna3" {
+				nk = 18 // 144 > 120 compute units of the mi300a
+			}
+		}
+	case allow["multi_kernel"] && (force["multi_kernel"] || r.Chance(1, 5)):
+		nk = 2
+	}
+	if spec.Chain > 0 {
+		chain, nk = true, spec.Chain
+	}
+	chainO := 192
 	prevO := 0
 	for ki := 0; ki < nk; ki++ {
 		x.used = map[string]bool{}
 		for f := range geoUsed {
 			x.used[f] = true
 		}
-		oStr := 128
+		x.written = map[int]bool{}
+		oStr := 192
 		iStr := 64
 		iShift := 0
 		if allow["straddle"] && (force["straddle"] || r.Bool()) {
-			oStr = pick(r, []int{132, 144, 176, 208})
+			oStr = pick(r, []int{196, 208, 240, 272})
 			iStr = pick(r, []int{68, 80, 96, 112})
 			iShift = pick(r, []int{0, 4, 8, 60})
 			x.use("straddle")
 		}
-		inFrom := -1
-		if ki > 0 {
+		if spec.OStr > 0 {
+			oStr = spec.OStr
+		}
+		inFrom, outTo := -1, -1
+		if chain {
+			if ki == 0 {
+				chainO = oStr
+			}
+			oStr = chainO
+			if ki > 0 {
+				inFrom, iStr, iShift = ki-1, chainO, 0
+			}
+			if ki >= 2 {
+				outTo = ki - 2
+				for prog.Kernels[outTo].OutTo >= 0 {
+					outTo = prog.Kernels[outTo].OutTo
+				}
+			}
+			x.use("xkernel")
+		} else if ki > 0 {
 			x.use("multi_kernel")
-			inFrom = ki - 1
-			iStr, iShift = prevO, 0
+			inFrom, iStr, iShift = ki-1, prevO, 0
 		}
 		abi := ABI{}
 		if allow["abi_dispatch"] && (force["abi_dispatch"] || r.Chance(1, 3)) {
@@ -838,14 +1116,8 @@ func BuildProgram(spec ProgSpec) (prog *Program, err error) {
 			abi.WGCount = true
 			x.use("abi_wgcount")
 		}
-		abi.QueuePtr = force["abi_queue_ptr"]
-		abi.PrivSegSize = force["abi_private_segment_size"]
-		for _, f := range []string{"abi_queue_ptr", "abi_private_segment_size"} {
-			if force[f] {
-				x.use(f)
-			}
-		}
 		k := newKB(arch, spec.Arch == "cdna3", geo, abi, oStr, iStr, iShift)
+		k.rev = chain && ki > 0
 		x.k = k
 		k.prologue()
 		k.initTemps(r.Uint64())
@@ -861,38 +1133,11 @@ func BuildProgram(spec ProgSpec) (prog *Program, err error) {
 				k.sop2(opSAddU32, g.S(sT0+1+i), g.S(sT0+1+i), g.S(k.rCnt+i))
 			}
 		}
-		if force["abi_queue_ptr"] || force["abi_private_segment_size"] {
-			// dump the raw ABI registers s0..s11 through the temporaries
-			for i := 0; i < nST; i++ {
-				k.sop1(opSMovB32, g.S(sT0+i), g.S(i))
-			}
-		}
-		if force["s_getpc"] {
-			x.use("s_getpc")
-			k.sop1(28, g.SRange(sT0, 2), g.Imm(0)) // s_getpc_b64
-			// make it position independent: subtract the entry address is not
-			// possible without knowing it; both modes load the code at the
-			// same device address, so the raw value is comparable
-		}
-		if force["saddr_s0"] {
-			x.use("saddr_s0")
-			k.sop1(opSMovB64, g.SRange(0, 2), g.SRange(sIN, 2))
-			k.nMem++
-			k.add(g.GlobalLoad(g.OpFlatLoadDword, g.V(vL0), g.V(vIOFF), g.SRange(0, 2), 0))
-			k.add(g.Waitcnt(0, 7, 15))
-			k.vop2(opVXor, g.V(vT0), g.V(vL0), g.V(vT0))
-		}
-		if force["goffset"] || (allow["goffset"] && r.Chance(1, 3)) {
-			// negative immediate offset: address register points 32 bytes past
-			x.use("goffset")
-			k.add64(vA0, vIN, 32)
-			k.nMem++
-			k.add(g.GlobalLoad(g.OpFlatLoadDword, g.V(vL0), g.VRange(vA0, 2), g.Off, int64(-4*(1+r.Intn(8)))))
-			k.add(g.Waitcnt(0, 7, 15))
-			k.vop2(opVXor, g.V(vT0+1), g.V(vL0), g.V(vT0+1))
-		}
 		// body
-		nb := 5 + r.Intn(8)
+		nb := []int{3, 5, 7}[spec.Size] + r.Intn([]int{3, 6, 8}[spec.Size])
+		if chain {
+			nb = 1 + r.Intn(2)
+		}
 		forced := []string{}
 		for f := range force {
 			forced = append(forced, f)
@@ -910,6 +1155,8 @@ func BuildProgram(spec ProgSpec) (prog *Program, err error) {
 				x.loadBlock()
 			case "store":
 				x.storeBlock()
+			case "raw":
+				x.rawBlock()
 			case "smem":
 				x.smemBlock()
 			case "lds":
@@ -926,10 +1173,12 @@ func BuildProgram(spec ProgSpec) (prog *Program, err error) {
 		}
 		kindOf := func(f string) string {
 			switch f {
-			case "ld_ubyte", "ld_sbyte", "ld_ushort", "ld_dword", "ld_x2", "ld_x4", "saddr", "straddle":
+			case "ld_ubyte", "ld_sbyte", "ld_ushort", "ld_dword", "ld_x2", "ld_x4", "saddr", "straddle", "xkernel":
 				return "load"
-			case "st_dword", "st_x2", "st_x3", "st_x4":
+			case "st_dword", "st_x2", "st_x3", "st_x4", "waw", "waw_waitcnt":
 				return "store"
+			case "raw_mem":
+				return "raw"
 			case "smem_x1", "smem_x2", "smem_x4", "smem_x8", "smem_x16", "smem_sgpr_off", "smem_cross_line":
 				return "smem"
 			case "lds", "lds2", "lds64":
@@ -947,15 +1196,14 @@ func BuildProgram(spec ProgSpec) (prog *Program, err error) {
 			}
 			return "alu"
 		}
-		// a probe's allow set is base + feature: the weights below only pick
-		// block kinds whose features are allowed
 		weights := []struct {
 			kind string
 			w    int
 			need []string
 		}{
 			{"alu", 30, nil}, {"salu", 8, []string{"salu"}},
-			{"load", 14, nil}, {"store", 12, nil},
+			{"load", 14, nil}, {"store", 14, nil},
+			{"raw", 5, []string{"raw_mem"}},
 			{"smem", 8, []string{"smem_x1", "smem_x2", "smem_x4", "smem_x8", "smem_x16"}},
 			{"lds", 7, []string{"lds", "lds2", "lds64"}},
 			{"waitcnt", 5, []string{"waitcnt_nz"}},
@@ -977,6 +1225,10 @@ func BuildProgram(spec ProgSpec) (prog *Program, err error) {
 				}
 			}
 		}
+		if spec.Script != nil {
+			nb = 0
+			x.runScript(spec.Script)
+		}
 		for i := 0; i < nb; i++ {
 			emit(pick(r, bag))
 			if len(forced) > 0 && i%2 == 1 {
@@ -993,12 +1245,40 @@ func BuildProgram(spec ProgSpec) (prog *Program, err error) {
 				emit(kindOf(f))
 			}
 		}
+		// single-instruction probes go last so that their result reaches the
+		// dump of the temporaries unmodified
+		if force["s_getpc"] {
+			x.use("s_getpc")
+			k.sop1(28, g.SRange(sT0, 2), g.Imm(0)) // s_getpc_b64
+		}
+		if force["saddr_s0"] {
+			// SADDR = s[0:1]: scalar base on CDNA3 (emulation decoder), "off" under
+			// the GCN3 rule. The operands are arranged so that both readings give a
+			// valid address: base = (IN_hi << 32) + 16, VGPR = low half of the own
+			// IN-region address, whose successor register holds the high half.
+			x.use("saddr_s0")
+			k.sop1(opSMovB32, g.S(0), g.Imm(16))
+			k.sop1(opSMovB32, g.S(1), g.S(sIN+1))
+			k.nMem++
+			k.add(g.GlobalLoad(g.OpFlatLoadDword, g.V(vL0), g.V(vIN), g.SRange(0, 2), 0))
+			k.add(g.Waitcnt(0, 7, 15))
+			k.vop2(opVXor, g.V(vT0), g.V(vL0), g.V(vT0))
+		}
+		if force["goffset"] || (allow["goffset"] && r.Chance(1, 3)) {
+			// negative immediate offset: address register points 32 bytes past
+			x.use("goffset")
+			k.add64(vA0, vIN, 32)
+			k.nMem++
+			k.add(g.GlobalLoad(g.OpFlatLoadDword, g.V(vL0), g.VRange(vA0, 2), g.Off, int64(-4*(1+r.Intn(8)))))
+			k.add(g.Waitcnt(0, 7, 15))
+			k.vop2(opVXor, g.V(vT0+1), g.V(vL0), g.V(vT0+1))
+		}
 		k.epilogue()
 		co, e := k.codeObject()
 		if e != nil {
 			return nil, e
 		}
-		kn := &Kernel{CO: co, L: geo, OStr: oStr, IStr: iStr, IShift: iShift, InFrom: inFrom, NInst: k.p.Len(), NMem: k.nMem}
+		kn := &Kernel{CO: co, L: geo, OStr: oStr, IStr: iStr, IShift: iShift, InFrom: inFrom, OutTo: outTo, NInst: k.p.Len(), NMem: k.nMem}
 		for i := range kn.Consts {
 			kn.Consts[i] = r.Uint32()
 		}
@@ -1009,7 +1289,6 @@ func BuildProgram(spec ProgSpec) (prog *Program, err error) {
 		prog.Kernels = append(prog.Kernels, kn)
 		prevO = oStr
 	}
-	prog.InSize = geo.slots()*112 + 256
 	return prog, nil
 }
 
